@@ -1,4 +1,5 @@
 import configparser
+import math
 import re
 import collections
 
@@ -64,6 +65,10 @@ class _TabulationCutoff(object):
     nr = _get_or_none(self._nr_attr, cp_tabulation_section, int)
     dr = _get_or_none(self._dr_attr, cp_tabulation_section, float)
     cutoff = _get_or_none(self._cutoff_attr, cp_tabulation_section, float)
+
+    for name, value in [(self._dr_attr, dr), (self._cutoff_attr, cutoff)]:
+      if not value is None and (math.isnan(value) or math.isinf(value)):
+        raise ConfigParserException("'{name}' in [Tabulation] section of potential definition must be a finite number.".format(name = name))
 
     # Reject zero or negative values before using them: testing the values for truth below
     # would treat 0 as 'not specified' and silently replace it.
